@@ -293,8 +293,11 @@ func (r *replication) replicate(c *conn, req *appendReq) error {
 				}
 				close(stopCh)
 				if resp.result == staleTerm {
+					// note: draining reads the remaining responses into resp.
+					// so notify ldr about the term in this resp, before that
+					err = r.onAppendEntriesResp(resp, result.lastIndex) // notifies ldr and return errStop
 					drainRespsTimeout(r.hbTimeout / 2)
-					return r.onAppendEntriesResp(resp, result.lastIndex) // notifies ldr and return errStop
+					return err
 				}
 				if err = drainResps(); err != nil {
 					return err
